@@ -57,7 +57,7 @@ def generate(rng, tier):
                     cfg = E.cfg_str(allow=rng.choice([0, 0, 4, 7]), maxs=lim, cap=rng.choice(["def", "0", "16", "100"]))
                     cases.append(Case("M %s %s - %s N" % (sp.s(), cfg, data.hex()), ctx, {"size": size, "limit": limv, "present": present}))
     specs = specs_pool(rng, 10)
-    for k in range(3000 if thorough else 300):
+    for k in range(3000 * TH if thorough else 300):
         spx, data, kind, _ = gen_stream(rng, specs, big=False, p_valid=0.2, p_mut=0.6)
         lim = rng.choice(["5", "64", "4096"])
         cfg = E.cfg_str(allow=rng.randrange(8), maxs=lim, cap=rng.choice(["def", "0", "16"]))
